@@ -573,6 +573,12 @@ theorem sim_stepOpBasic {w : World} {j : JState} (h : RP w j) (ha : opAllowed j 
     rw [hst]
     exact stepOK_one (by decide) rfl
       ⟨⟨h.1.hbs, h.1.known, h.1.nofn, h.1.dead, h.1.flag, h.1.cur, h.1.ok, h.1.cap, h.1.sub⟩, h.2⟩ (Frame.refl j)
+  | rp =>
+    simp only [stepOpBasic]
+    split
+    · exact stepOK_one (by decide) rfl h (Frame.refl j)
+    · exact stepOK_one (by decide) rfl
+        ⟨⟨h.1.hbs, h.1.known, h.1.nofn, h.1.dead, h.1.flag, h.1.cur, h.1.ok, h.1.cap, h.1.sub⟩, h.2⟩ (Frame.refl j)
 
 theorem stepOK_nil (w : World) (j : JState) (h : RP w j) : StepOK w j (w, [], .ok) := by
   unfold StepOK
@@ -634,6 +640,7 @@ theorem stepOpBasic_ok (w : World) (self : Nat) (op : Op) (h : hookAllowed op = 
   | reload t n => cases h
   | living => cases h
   | burn => cases h
+  | rp => cases h
 
 theorem runOpsBasic_ok (self : Nat) : ∀ (ops : List Op) (w : World), (∀ op ∈ ops, hookAllowed op = true) →
     (runOpsBasic w self ops).2.2 = .ok := by
@@ -773,6 +780,7 @@ theorem sim_stepOp {w : World} {j : JState} (h : RP w j) (ha : opAllowed j = tru
   | reload t n => exact sim_stepOpBasic h ha self _
   | living => exact sim_stepOpBasic h ha self _
   | burn => exact sim_stepOpBasic h ha self _
+  | rp => exact sim_stepOpBasic h ha self _
 
 theorem sim_runOps (self : Nat) : ∀ (ops : List Op) (w : World) (j : JState), RP w j → opAllowed j = true →
     StepOK w j (runOps w self ops) := by
@@ -1043,9 +1051,9 @@ def Idle (w : World) (j : JState) : Prop :=
 theorem idle_init (hk : Nat → List Op) : Idle { hooks := hk } {} :=
   ⟨⟨rfl, rfl, rfl, rfl, rfl, rfl, rfl, Nat.le_refl _, by intro x hx; cases hx⟩, rfl, rfl, rfl⟩
 
-/-- one timer tick -/
-theorem sim_tick (sc : Scripts) {w : World} {j : JState} (h : Idle w j) :
-    Idle (tick sc w).1 ((tick sc w).2.foldl judge1 j) := by
+/-- call_heart_beat -/
+theorem sim_tickCore (sc : Scripts) {w : World} {j : JState} (h : Idle w j) :
+    Idle (tickCore sc w).1 ((tickCore sc w).2.foldl judge1 j) := by
   obtain ⟨h0, hin, hex, hbad⟩ := h
   let j0 : JState := { j with done := [], pend := j.done ++ j.pend ++ j.late, late := [], inRound := true, trunc := false }
   have hjb : judge1 j .tickBegin = advance j0 := by simp [judge1, hex, j0]
@@ -1098,6 +1106,45 @@ theorem sim_tick (sc : Scripts) {w : World} {j : JState} (h : Idle w j) :
     refine ⟨⟨?_, h0.known, h0.nofn, h0.dead, rfl, rfl, h0.ok, h0.cap, h0.sub⟩, rfl, rfl, hbad⟩
     show w.hbs = _
     rw [h0.hbs]; simp [endRound, j0]
+
+theorem sim_rpStep {j0 : JState} (acc : World × List Ev) (h : Idle acc.1 (acc.2.foldl judge1 j0)) (o : Nat) :
+    Idle (rpStep acc o).1 ((rpStep acc o).2.foldl judge1 j0) := by
+  unfold rpStep
+  split
+  · obtain ⟨h0, hin, hex, hbad⟩ := h
+    simp only [List.foldl_append, List.foldl_cons, List.foldl_nil]
+    have hj : judge1 (acc.2.foldl judge1 j0) (.rpDone o) =
+        { acc.2.foldl judge1 j0 with nofn := o :: (acc.2.foldl judge1 j0).nofn } := by
+      simp [judge1, hex]
+    rw [hj]
+    refine ⟨⟨h0.hbs, h0.known, ?_, h0.dead, h0.flag, h0.cur, h0.ok, h0.cap, h0.sub⟩, hin, hex, hbad⟩
+    show o :: acc.1.nofn = o :: (acc.2.foldl judge1 j0).nofn
+    rw [h0.nofn]
+  · exact h
+
+theorem sim_rpFold {j0 : JState} : ∀ (l : List Nat) (acc : World × List Ev), Idle acc.1 (acc.2.foldl judge1 j0) →
+    Idle (l.foldl rpStep acc).1 ((l.foldl rpStep acc).2.foldl judge1 j0) := by
+  intro l
+  induction l with
+  | nil => intro acc h; exact h
+  | cons o r ih => intro acc h; exact ih _ (sim_rpStep acc h o)
+
+/-- one pass of the backend loop: pending program replacements, then call_heart_beat -/
+theorem sim_tick (sc : Scripts) {w : World} {j : JState} (h : Idle w j) :
+    Idle (tick sc w).1 ((tick sc w).2.foldl judge1 j) := by
+  have h1 : Idle (applyRp w).1 ((applyRp w).2.foldl judge1 j) := by
+    unfold applyRp
+    apply sim_rpFold
+    obtain ⟨h0, hin, hex, hbad⟩ := h
+    exact ⟨⟨h0.hbs, h0.known, h0.nofn, h0.dead, h0.flag, h0.cur, h0.ok, h0.cap, h0.sub⟩, hin, hex, hbad⟩
+  unfold tick
+  cases hr : applyRp w with
+  | mk w1 e1 =>
+    rw [hr] at h1
+    have h2 := sim_tickCore sc h1
+    dsimp only
+    rw [List.foldl_append]
+    exact h2
 
 /-- one top-level command -/
 theorem sim_stepCmd (sc : Scripts) {w : World} {j : JState} (h : Idle w j) (c : Cmd) :
